@@ -144,6 +144,18 @@ def attach_clone(prop="C13"):
         if new_root is None or not check_copy(prop, rec, root, new_root, "clone_from_root", w):
             return res
         rpath = S.path_from_root(res)
+        objs = S.nodes_preorder(root)
+        if len({id(n) for n in objs}) < len(objs):
+            # an operand object occurs at several positions of the original (x = Variable("x");
+            # Multiply(x, x)): "the position of the node" is not unique, any of them is right
+            places = [i for i, n in enumerate(objs) if n is self]
+            copies = S.nodes_preorder(new_root)
+            if not any(i < len(copies) and copies[i] is res for i in places):
+                w["summary"] = f"clone_from_root via a node of '{S.text_of(root)}' that occurs at {len(places)} positions returned a node at none of them"
+                rec.violation(prop, "clone_from_root/position", "clone_from_root does not return the copy of the node it was called on", w)
+            else:
+                rec.arm("clone_from_root:operand-object-used-twice")
+            return res
         if rpath != path or res is not S.follow(new_root, path or []):
             w["summary"] = f"clone_from_root via the node at {''.join(path or []) or 'root'} of '{S.text_of(root)}' returned the node at {''.join(rpath or ['?'])}"
             rec.violation(prop, "clone_from_root/position", "clone_from_root does not return the copy of the node it was called on", w)
